@@ -121,7 +121,7 @@ def gen_cases(ctx):
     return cases
 
 
-FMT_LINES = {"success": ["out"], "failure": ["x"], "allowed-failure": ["x", "y"], "failing-after": ["o"], "interactive": ["asking"], "complains": ["o", "p"]}
+FMT_LINES = {"success": ["out"], "failure": ["x"], "allowed-failure": ["x", "y"], "failing-after": ["o"], "interactive": ["asking"], "complains": ["o", "p"], "longlines": ["x" * 6000, "y" * 10000, "tail"]}
 
 
 def fmt_cases(ctx):
@@ -138,6 +138,8 @@ def fmt_cases(ctx):
         "interactive": {"commands": ["printf 'asking\\n'"], "interactive": True},
         # both streams, then a failure: what is recorded (output, error message, exit code) is the same under every format
         "complains": {"commands": ["printf 'o\\n'; printf 'e\\n' >&2", "printf 'p\\n'; printf 'q\\n' >&2; exit 4"]},
+        # lines far longer than any buffer of a few KiB, written by an external program; a short line after them
+        "longlines": {"commands": ["head -c 6000 /dev/zero | tr '\\0' 'x'; echo; head -c 10000 /dev/zero | tr '\\0' 'y'; echo; echo tail"]},
     }
     cases = []
     for kind, t in kinds.items():
@@ -321,6 +323,16 @@ def run(ctx):
                     for l in FMT_LINES.get(t["name"].split("-", 1)[1], []):
                         want.append(l if (c["format"] == "raw" or t.get("interactive")) else "%s: %s" % (t["name"], l))
                 missing = [w for w in want if w not in shown]
+                if any(t["name"].endswith("-longlines") for t in c["tasks"]):
+                    # a line longer than the decorator's buffer may be shown in several pieces: what must hold is the statement's projection -
+                    # the task's lines without prefixes and line ends are exactly its output without line ends
+                    missing = []
+                    for t in c["tasks"]:
+                        pre = "" if c["format"] == "raw" else t["name"] + ": "
+                        got = "".join(l[len(pre):] for l in shown if l.startswith(pre) and (pre or l))
+                        wantp = "".join(FMT_LINES.get(t["name"].split("-", 1)[1], []))
+                        if t["name"].endswith("-longlines") and got != wantp:
+                            missing.append("%s: %d bytes shown, %d written" % (t["name"], len(got), len(wantp)))
                 if missing:
                     res.violations.append({"class": None, "what": "format %s: a line of a task's output is missing from the stream or is not decorated as the selected format says" % c["format"],
                                            "case": rc, "observed": {"missing": missing, "stream": stream[-800:]}})
